@@ -1,175 +1,236 @@
 (* C02 - parser laws for the three HTTP loops, and the exact loops of BasicHttpServer and
    EventChannel related to Framing.run. *)
-From Coq Require Import NArith List Bool Arith Lia.
+From Coq Require Import NArith ZArith List Bool Arith Lia.
 From PV Require Import Common.Cases Common.Framing Common.Endian C02.Model C02.ProofsBase C02.ProofsLaws.
 Import ListNotations.
 Local Open Scope N_scope.
+
+(* ---- Python slices *)
+Lemma py_from_length z (l : bytes) : (length (py_from z l) <= length l)%nat.
+Proof. unfold py_from. rewrite skipn_length. lia. Qed.
+
+Lemma py_to_from z (l : bytes) : py_to z l ++ py_from z l = l.
+Proof. unfold py_to, py_from. apply firstn_skipn. Qed.
+
+Lemma py_index_nonneg n z : (0 <= z)%Z -> py_index n z = Z.to_nat z.
+Proof. intro H. unfold py_index. destruct (z <? 0)%Z eqn:E; [apply Z.ltb_lt in E; lia|reflexivity]. Qed.
+
+(* a complete body with a non-negative length: the slices do not look at what follows *)
+Lemma py_slices_app z (b y : bytes) : (0 <= z)%Z -> (Z.of_N (len b) <? z)%Z = false ->
+  py_to z (b ++ y) = py_to z b /\ py_from z (b ++ y) = py_from z b ++ y /\
+  (Z.of_N (len (b ++ y)) <? z)%Z = false.
+Proof.
+  intros H0 L. apply Z.ltb_ge in L. unfold py_to, py_from, len in *. rewrite !py_index_nonneg by assumption.
+  assert (Z.to_nat z <= length b)%nat by lia.
+  repeat split.
+  - now apply firstn_app_le.
+  - now apply skipn_app_le.
+  - apply Z.ltb_ge. rewrite app_length. lia.
+Qed.
 
 Section Http.
   Variable utf8_ok : bytes -> bool.
   Variable resp_first_ok : bytes -> bool.
   Variable req_first_ok : bytes -> bool.
-  Local Notation phm := (parse_http_message utf8_ok).
+  Local Notation phm := (parse_http_message_gen utf8_ok).
 
-  Lemma phm_msg_app : forall x f d b r y, phm x = HMsg f d b r -> phm (x ++ y) = HMsg f d b (r ++ y).
+  (* progress: for EVERY integer content length, also with strict = false (the code as written) *)
+  Lemma phm_progress : forall strict x f d b r, phm strict x = HMsg f d b r -> (length r + 4 <= length x)%nat.
   Proof.
-    unfold parse_http_message. intros x f d b r y H.
+    unfold parse_http_message_gen. intros strict x f d b r H.
+    destruct (find_sep CRLF2 x) as [[hs body]|] eqn:F; [|discriminate].
+    destruct (negb (utf8_ok hs)); [discriminate|].
+    destruct (key_values _) as [kvs|]; [|discriminate].
+    destruct (content_length (cid_of kvs)) as [cl| |]; try discriminate.
+    destruct (strict && (cl <? 0)%Z); [discriminate|].
+    destruct (Z.of_N (len body) <? cl)%Z eqn:L; [discriminate|].
+    injection H as Hf Hd Hb Hr. subst f d b r.
+    apply find_sep_length in F. pose proof (py_from_length cl body). cbn [CRLF2 length] in F. lia.
+  Qed.
+
+  Lemma phm_msg_app : forall x f d b r y, phm true x = HMsg f d b r -> phm true (x ++ y) = HMsg f d b (r ++ y).
+  Proof.
+    unfold parse_http_message_gen. intros x f d b r y H.
     destruct (find_sep CRLF2 x) as [[hs body]|] eqn:F; [|discriminate].
     rewrite (find_sep_app _ _ _ _ y F).
     destruct (negb (utf8_ok hs)); [discriminate|].
     destruct (key_values _) as [kvs|]; [|discriminate].
-    destruct (match cid_get (cid_of kvs) CONTENT_LENGTH with None => Some 0 | Some v => parse_cl v end) as [cl|]; [|discriminate].
-    destruct (len body <? cl) eqn:L; [discriminate|].
-    rewrite (ltb_app_false _ y _ L). apply N.ltb_ge in L.
-    injection H as Hf Hd Hb Hr. subst f d b r.
-    rewrite take_app_le, drop_app_le by assumption. reflexivity.
+    destruct (content_length (cid_of kvs)) as [cl| |]; try discriminate.
+    cbn [andb] in *. destruct (cl <? 0)%Z eqn:N0; [discriminate|]. apply Z.ltb_ge in N0.
+    destruct (Z.of_N (len body) <? cl)%Z eqn:L; [discriminate|].
+    destruct (py_slices_app cl body y N0 L) as (E1 & E2 & E3). rewrite E1, E2, E3.
+    injection H as Hf Hd Hb Hr. subst f d b r. reflexivity.
   Qed.
 
-  Lemma phm_fail_app : forall x e y, phm x = HFail e -> phm (x ++ y) = HFail e.
+  Lemma phm_fail_app : forall x e y, phm true x = HFail e -> phm true (x ++ y) = HFail e.
   Proof.
-    unfold parse_http_message. intros x e y H.
+    unfold parse_http_message_gen. intros x e y H.
     destruct (find_sep CRLF2 x) as [[hs body]|] eqn:F; [|discriminate].
     rewrite (find_sep_app _ _ _ _ y F).
     destruct (negb (utf8_ok hs)); [assumption|].
     destruct (key_values _) as [kvs|]; [|assumption].
-    destruct (match cid_get (cid_of kvs) CONTENT_LENGTH with None => Some 0 | Some v => parse_cl v end) as [cl|]; [|assumption].
-    destruct (len body <? cl) eqn:L; discriminate.
+    destruct (content_length (cid_of kvs)) as [cl| |]; try assumption.
+    cbn [andb] in *. destruct (cl <? 0)%Z; [assumption|].
+    destruct (Z.of_N (len body) <? cl)%Z eqn:L; discriminate.
   Qed.
 
-  Lemma phm_progress : forall x f d b r, phm x = HMsg f d b r -> (length r + 4 <= length x)%nat.
+  (* where the strict parser does not fail, the code as written does the same *)
+  Lemma phm_agree : forall x, (forall e, phm true x <> HFail e) -> phm false x = phm true x.
   Proof.
-    unfold parse_http_message. intros x f d b r H.
-    destruct (find_sep CRLF2 x) as [[hs body]|] eqn:F; [|discriminate].
-    destruct (negb (utf8_ok hs)); [discriminate|].
-    destruct (key_values _) as [kvs|]; [|discriminate].
-    destruct (match cid_get (cid_of kvs) CONTENT_LENGTH with None => Some 0 | Some v => parse_cl v end) as [cl|]; [|discriminate].
-    destruct (len body <? cl) eqn:L; [discriminate|].
-    injection H as Hf Hd Hb Hr. subst f d b r.
-    apply find_sep_length in F. unfold drop. rewrite skipn_length. cbn [CRLF2 length] in F. lia.
+    unfold parse_http_message_gen. intros x H.
+    destruct (find_sep CRLF2 x) as [[hs body]|]; [|reflexivity].
+    destruct (negb (utf8_ok hs)); [reflexivity|].
+    destruct (key_values _) as [kvs|]; [|reflexivity].
+    destruct (content_length (cid_of kvs)) as [cl| |]; try reflexivity.
+    cbn [andb] in *. destruct (cl <? 0)%Z; [|reflexivity]. exfalso. eapply H. reflexivity.
   Qed.
 
   (* ---- HttpConnection *)
-  Local Notation pc := (httpc_p1 utf8_ok resp_first_ok).
+  Local Notation pc := (httpc_gen utf8_ok resp_first_ok).
 
-  Lemma httpc_stable : forall s x m s' r y, pc s x = Frame m s' r -> pc s (x ++ y) = Frame m s' (r ++ y).
+  Lemma httpc_stable : forall s x m s' r y, pc true s x = Frame m s' r -> pc true s (x ++ y) = Frame m s' (r ++ y).
   Proof.
-    unfold httpc_p1. intros s x m s' r y H.
-    destruct (parse_http_message utf8_ok x) as [|e|f d b r0] eqn:P; try discriminate.
+    unfold httpc_gen. intros s x m s' r y H.
+    destruct (parse_http_message_gen utf8_ok true x) as [|e|f d b r0] eqn:P; try discriminate.
     rewrite (phm_msg_app _ _ _ _ _ y P).
     destruct (resp_first_ok f); [|discriminate]. now inversion H.
   Qed.
 
-  Lemma httpc_progress : forall s x m s' r, pc s x = Frame m s' r -> (length r < length x)%nat.
+  Lemma httpc_progress : forall strict s x m s' r, pc strict s x = Frame m s' r -> (length r < length x)%nat.
   Proof.
-    unfold httpc_p1. intros s x m s' r H.
-    destruct (parse_http_message utf8_ok x) as [|e|f d b r0] eqn:P; try discriminate.
+    unfold httpc_gen. intros strict s x m s' r H.
+    destruct (parse_http_message_gen utf8_ok strict x) as [|e|f d b r0] eqn:P; try discriminate.
     destruct (resp_first_ok f); [|discriminate]. inversion H; subst.
     apply phm_progress in P. lia.
   Qed.
 
-  Lemma httpc_failpfx : forall s x y e, pc s x = Fail e -> exists e', pc s (x ++ y) = Fail e'.
+  Lemma httpc_failpfx : forall s x y e, pc true s x = Fail e -> exists e', pc true s (x ++ y) = Fail e'.
   Proof.
-    unfold httpc_p1. intros s x y e H.
-    destruct (parse_http_message utf8_ok x) as [|e0|f d b r0] eqn:P; try discriminate.
+    unfold httpc_gen. intros s x y e H.
+    destruct (parse_http_message_gen utf8_ok true x) as [|e0|f d b r0] eqn:P; try discriminate.
     - rewrite (phm_fail_app _ _ y P). eauto.
     - rewrite (phm_msg_app _ _ _ _ _ y P). destruct (resp_first_ok f); [discriminate|]. eauto.
   Qed.
 
-  (* ---- parse_request *)
-  Local Notation pr := (parse_request utf8_ok req_first_ok).
-
-  Lemma pr_frame_app : forall x m r y, pr x = RFrame m r -> pr (x ++ y) = RFrame m (r ++ y).
+  Lemma httpc_agree : forall s x, (forall e, pc true s x <> Fail e) -> pc false s x = pc true s x.
   Proof.
-    unfold parse_request. intros x m r y H.
-    destruct (parse_http_message utf8_ok x) as [|e|f d b r0] eqn:P; try discriminate.
+    unfold httpc_gen. intros s x H. rewrite phm_agree; [reflexivity|].
+    intros e E. rewrite E in H. eapply H. reflexivity.
+  Qed.
+
+  (* ---- parse_request *)
+  Local Notation pr := (parse_request_gen utf8_ok req_first_ok).
+
+  Lemma pr_frame_app : forall x m r y, pr true x = RFrame m r -> pr true (x ++ y) = RFrame m (r ++ y).
+  Proof.
+    unfold parse_request_gen. intros x m r y H.
+    destruct (parse_http_message_gen utf8_ok true x) as [|e|f d b r0] eqn:P; try discriminate.
     rewrite (phm_msg_app _ _ _ _ _ y P).
     destruct f as [|c f']; [discriminate|].
     destruct (req_first_ok (c :: f')); [|discriminate]. now inversion H.
   Qed.
 
-  Lemma pr_fail_app : forall x e y, pr x = RFail e -> pr (x ++ y) = RFail e.
+  Lemma pr_fail_app : forall x e y, pr true x = RFail e -> pr true (x ++ y) = RFail e.
   Proof.
-    unfold parse_request. intros x e y H.
-    destruct (parse_http_message utf8_ok x) as [|e0|f d b r0] eqn:P; try discriminate.
+    unfold parse_request_gen. intros x e y H.
+    destruct (parse_http_message_gen utf8_ok true x) as [|e0|f d b r0] eqn:P; try discriminate.
     - rewrite (phm_fail_app _ _ y P). assumption.
     - rewrite (phm_msg_app _ _ _ _ _ y P).
       destruct f as [|c f']; [discriminate|].
       destruct (req_first_ok (c :: f')); [discriminate|]. assumption.
   Qed.
 
-  Lemma pr_skip_app : forall x r y, pr x = RSkip r -> pr (x ++ y) = RSkip (r ++ y).
+  Lemma pr_skip_app : forall x r y, pr true x = RSkip r -> pr true (x ++ y) = RSkip (r ++ y).
   Proof.
-    unfold parse_request. intros x r y H.
-    destruct (parse_http_message utf8_ok x) as [|e0|f d b r0] eqn:P; try discriminate.
+    unfold parse_request_gen. intros x r y H.
+    destruct (parse_http_message_gen utf8_ok true x) as [|e0|f d b r0] eqn:P; try discriminate.
     rewrite (phm_msg_app _ _ _ _ _ y P).
     destruct f as [|c f']; [now inversion H|].
     destruct (req_first_ok (c :: f')); discriminate.
   Qed.
 
-  Lemma pr_frame_progress : forall x m r, pr x = RFrame m r -> (length r < length x)%nat.
+  Lemma pr_frame_progress : forall strict x m r, pr strict x = RFrame m r -> (length r < length x)%nat.
   Proof.
-    unfold parse_request. intros x m r H.
-    destruct (parse_http_message utf8_ok x) as [|e|f d b r0] eqn:P; try discriminate.
+    unfold parse_request_gen. intros strict x m r H.
+    destruct (parse_http_message_gen utf8_ok strict x) as [|e|f d b r0] eqn:P; try discriminate.
     destruct f as [|c f']; [discriminate|].
     destruct (req_first_ok (c :: f')); [|discriminate]. inversion H; subst.
     apply phm_progress in P. lia.
   Qed.
 
-  Lemma pr_skip_progress : forall x r, pr x = RSkip r -> (length r < length x)%nat.
+  Lemma pr_skip_progress : forall strict x r, pr strict x = RSkip r -> (length r < length x)%nat.
   Proof.
-    unfold parse_request. intros x r H.
-    destruct (parse_http_message utf8_ok x) as [|e|f d b r0] eqn:P; try discriminate.
+    unfold parse_request_gen. intros strict x r H.
+    destruct (parse_http_message_gen utf8_ok strict x) as [|e|f d b r0] eqn:P; try discriminate.
     destruct f as [|c f']; [|destruct (req_first_ok (c :: f')); discriminate].
     inversion H; subst. apply phm_progress in P. lia.
   Qed.
 
-  (* ---- BasicHttpServer *)
-  Local Notation pd := (httpd_p1 utf8_ok req_first_ok).
-
-  Lemma httpd_stable : forall s x m s' r y, pd s x = Frame m s' r -> pd s (x ++ y) = Frame m s' (r ++ y).
+  Lemma pr_agree : forall x, (forall e, pr true x <> RFail e) -> pr false x = pr true x.
   Proof.
-    unfold httpd_p1. intros s x m s' r y H.
-    destruct (parse_request utf8_ok req_first_ok x) eqn:P; try discriminate.
+    unfold parse_request_gen. intros x H. rewrite phm_agree; [reflexivity|].
+    intros e E. rewrite E in H. eapply H. reflexivity.
+  Qed.
+
+  (* ---- BasicHttpServer *)
+  Local Notation pd := (httpd_gen utf8_ok req_first_ok).
+
+  Lemma httpd_stable : forall s x m s' r y, pd true s x = Frame m s' r -> pd true s (x ++ y) = Frame m s' (r ++ y).
+  Proof.
+    unfold httpd_gen. intros s x m s' r y H.
+    destruct (parse_request_gen utf8_ok req_first_ok true x) eqn:P; try discriminate.
     rewrite (pr_frame_app _ _ _ y P). now inversion H.
   Qed.
 
-  Lemma httpd_progress : forall s x m s' r, pd s x = Frame m s' r -> (length r < length x)%nat.
+  Lemma httpd_progress : forall strict s x m s' r, pd strict s x = Frame m s' r -> (length r < length x)%nat.
   Proof.
-    unfold httpd_p1. intros s x m s' r H.
-    destruct (parse_request utf8_ok req_first_ok x) eqn:P; try discriminate.
+    unfold httpd_gen. intros strict s x m s' r H.
+    destruct (parse_request_gen utf8_ok req_first_ok strict x) eqn:P; try discriminate.
     inversion H; subst. now apply pr_frame_progress in P.
   Qed.
 
-  Lemma httpd_failpfx : forall s x y e, pd s x = Fail e -> exists e', pd s (x ++ y) = Fail e'.
+  Lemma httpd_failpfx : forall s x y e, pd true s x = Fail e -> exists e', pd true s (x ++ y) = Fail e'.
   Proof.
-    unfold httpd_p1. intros s x y e H.
-    destruct (parse_request utf8_ok req_first_ok x) eqn:P; try discriminate.
+    unfold httpd_gen. intros s x y e H.
+    destruct (parse_request_gen utf8_ok req_first_ok true x) eqn:P; try discriminate.
     rewrite (pr_fail_app _ _ y P). eauto.
   Qed.
 
-  (* ---- EventChannel *)
-  Local Notation pe := (ev_p1 utf8_ok req_first_ok).
-
-  Lemma ev_stable : forall s x m s' r y, pe s x = Frame m s' r -> pe s (x ++ y) = Frame m s' (r ++ y).
+  Lemma httpd_agree : forall s x, (forall e, pd true s x <> Fail e) -> pd false s x = pd true s x.
   Proof.
-    unfold ev_p1. intros s x m s' r y H.
-    destruct (parse_request utf8_ok req_first_ok x) eqn:P; try discriminate.
+    unfold httpd_gen. intros s x H. rewrite pr_agree; [reflexivity|].
+    intros e E. rewrite E in H. eapply H. reflexivity.
+  Qed.
+
+  (* ---- EventChannel *)
+  Local Notation pe := (ev_gen utf8_ok req_first_ok).
+
+  Lemma ev_stable : forall s x m s' r y, pe true s x = Frame m s' r -> pe true s (x ++ y) = Frame m s' (r ++ y).
+  Proof.
+    unfold ev_gen. intros s x m s' r y H.
+    destruct (parse_request_gen utf8_ok req_first_ok true x) eqn:P; try discriminate.
     rewrite (pr_frame_app _ _ _ y P). now inversion H.
   Qed.
 
-  Lemma ev_progress : forall s x m s' r, pe s x = Frame m s' r -> (length r < length x)%nat.
+  Lemma ev_progress : forall strict s x m s' r, pe strict s x = Frame m s' r -> (length r < length x)%nat.
   Proof.
-    unfold ev_p1. intros s x m s' r H.
-    destruct (parse_request utf8_ok req_first_ok x) eqn:P; try discriminate.
+    unfold ev_gen. intros strict s x m s' r H.
+    destruct (parse_request_gen utf8_ok req_first_ok strict x) eqn:P; try discriminate.
     inversion H; subst. now apply pr_frame_progress in P.
   Qed.
 
-  Lemma ev_failpfx : forall s x y e, pe s x = Fail e -> exists e', pe s (x ++ y) = Fail e'.
+  Lemma ev_failpfx : forall s x y e, pe true s x = Fail e -> exists e', pe true s (x ++ y) = Fail e'.
   Proof.
-    unfold ev_p1. intros s x y e H.
-    destruct (parse_request utf8_ok req_first_ok x) eqn:P; try discriminate.
+    unfold ev_gen. intros s x y e H.
+    destruct (parse_request_gen utf8_ok req_first_ok true x) eqn:P; try discriminate.
     - rewrite (pr_fail_app _ _ y P). eauto.
     - rewrite (pr_skip_app _ _ y P). eauto.
+  Qed.
+
+  Lemma ev_agree : forall s x, (forall e, pe true s x <> Fail e) -> pe false s x = pe true s x.
+  Proof.
+    unfold ev_gen. intros s x H. rewrite pr_agree; [reflexivity|].
+    intros e E. rewrite E in H. eapply H. reflexivity.
   Qed.
 
   (* ---- the loops as written vs. the drain shape *)
@@ -178,7 +239,7 @@ Section Http.
      where run fails, the server answered 500 and emptied its buffer. *)
   Lemma httpd_loop_run : forall fuel buf, (length buf <= fuel)%nat ->
     httpd_loop utf8_ok req_first_ok fuel buf =
-    match drain pd fuel tt buf with
+    match drain (httpd_p1 utf8_ok req_first_ok) fuel tt buf with
     | Out ms _ r => (map SReq ms, r)
     | Failed ms e => (map SReq ms ++ [SErr500 e], [])
     | OutOfFuel => ([], buf)
@@ -188,7 +249,7 @@ Section Http.
     - destruct buf; [reflexivity|simpl in Hl; lia].
     - destruct buf as [|c t]; [reflexivity|].
       cbn [httpd_loop]. rewrite drain_S. set (buf := c :: t) in *.
-      assert (Epd : pd tt buf = match pr buf with
+      assert (Epd : httpd_p1 utf8_ok req_first_ok tt buf = match parse_request utf8_ok req_first_ok buf with
                                 | RNeed | RSkip _ => Need | RFail e => Fail e | RFrame m rest => Frame m tt rest end)
         by reflexivity.
       rewrite Epd. clear Epd. unfold httpd_next.
@@ -199,11 +260,11 @@ Section Http.
       + replace (bytes_beq [] buf) with false by reflexivity.
         destruct f; reflexivity.
       + rewrite Ebb. reflexivity.
-      + pose proof (pr_frame_progress _ _ _ P) as Hp.
+      + pose proof (pr_frame_progress false _ _ _ P) as Hp.
         replace (bytes_beq r0 buf) with false.
         * rewrite IH by lia.
-          destruct (drain pd f tt r0) as [ms [] r1|ms e|] eqn:D; try reflexivity.
-          exfalso. revert D. apply (drain_fuel _ _ _ _ pd httpd_progress). lia.
+          destruct (drain (httpd_p1 utf8_ok req_first_ok) f tt r0) as [ms [] r1|ms e|] eqn:D; try reflexivity.
+          exfalso. revert D. apply (drain_fuel _ _ _ _ (httpd_p1 utf8_ok req_first_ok) (httpd_progress false)). lia.
         * symmetry. apply not_true_is_false. intro E.
           apply (list_beq_eq N.eqb) in E; [|intros; apply N.eqb_eq]. subst r0. lia.
   Qed.
@@ -211,7 +272,7 @@ Section Http.
   (* EventChannel.handle_received: on streams where run does not fail the loop as written IS run;
      where run fails, the messages before the failure were handled and nothing after it in this call *)
   Lemma ev_loop_run : forall fuel buf, (length buf <= fuel)%nat ->
-    match drain pe fuel tt buf with
+    match drain (ev_p1 utf8_ok req_first_ok) fuel tt buf with
     | Out ms _ r => ev_loop utf8_ok req_first_ok fuel buf = (ms, r)
     | Failed ms e => fst (ev_loop utf8_ok req_first_ok fuel buf) = ms
     | OutOfFuel => False
@@ -221,14 +282,14 @@ Section Http.
     - destruct buf; [reflexivity|simpl in Hl; lia].
     - destruct buf as [|c t]; [reflexivity|].
       cbn [ev_loop]. rewrite drain_S. set (buf := c :: t) in *.
-      assert (Epe : pe tt buf = match pr buf with
+      assert (Epe : ev_p1 utf8_ok req_first_ok tt buf = match parse_request utf8_ok req_first_ok buf with
                                 | RNeed => Need | RSkip _ => Fail EBlankFirstLine | RFail e => Fail e
                                 | RFrame m rest => Frame m tt rest end) by reflexivity.
       rewrite Epe. clear Epe.
       destruct (parse_request utf8_ok req_first_ok buf) as [|e|r0|m r0] eqn:P; try reflexivity.
-      pose proof (pr_frame_progress _ _ _ P) as Hp.
+      pose proof (pr_frame_progress false _ _ _ P) as Hp.
       specialize (IH r0 ltac:(lia)).
-      destruct (drain pe f tt r0) as [ms [] r1|ms e|] eqn:D.
+      destruct (drain (ev_p1 utf8_ok req_first_ok) f tt r0) as [ms [] r1|ms e|] eqn:D.
       + rewrite IH. reflexivity.
       + destruct (ev_loop utf8_ok req_first_ok f r0) as [ms' b']. cbn [fst] in *. now subst.
       + assumption.
